@@ -175,6 +175,16 @@ def slice_checks(c, f, q, rnd, stats):
 def run(c):
     c.trusted += ["modelled, not verified: Model/MultiFact.v (sub-query per metric model, FULL OUTER JOIN chain on the first sub-query, COALESCE, filter partitioning) hand-written; sub-queries reuse Model/Plan.v + Model/Join.v",
                   "oracle = the implementation's own single-metric results combined by a harness-side full outer join (as the property prescribes)"]
+    try:
+        import os
+        from translator import gen_multifact
+        lib.write_if_changed(os.path.join(lib.COQ, "Gen", "MultiFact_gen.v"), gen_multifact.generate(lib.REPO))
+        c.obligation("translator: verdict table of _needs_preaggregation_for_fanout (2744 scripted scenarios) regenerated", True, "translator")
+        same = gen_multifact.table(lib.REPO) == gen_multifact.table(lib.REPO, real=True)
+        c.obligation("translator validation: interpreted _needs_preaggregation_for_fanout == the real method under CPython on the same scenarios", same, "translator")
+    except Exception as e:
+        c.obligation("translator: verdict table of _needs_preaggregation_for_fanout regenerated", False, "translator", repr(e)[-900:])
+    c.trusted.append("translator/pyinterp.py + gen_multifact.py (fail-closed definitional interpreter; validated against CPython each run)")
     c.build_props()
     n = 160 if c.tier == "quick" else 2500
     cases = []
